@@ -846,7 +846,48 @@ def rule_shift_widen(ctx, prog, chk):
                              "so digits with bits above 31 are handled wrongly" % (fn.fmt(r0)[:30], (v.get("t") or "").replace("const ", ""), v["n"]), line=el.line)
                 else:
                     chk.ok("SHIFT-WIDEN", fn, v["n"], "int shift kept in a counter / index type", line=el.line)
+        # second clause: a mask built in 32 bits (`1 << i`, or a 32-bit variable holding such a shift) tests a bit of a digit
+        narrow_vars = {}
+        for el in fn.all_elements():
+            for sub in ir.walk(fn, el.e):
+                tgt = rhs = None
+                if sub[0] == "d" and sub[2] is not None:
+                    tgt, rhs = sub[1], sub[2]
+                elif sub[0] == "=" and ir.strip_casts(sub[1])[0] == "v":
+                    tgt, rhs = ir.strip_casts(sub[1])[1], sub[2]
+                if tgt is not None and _int_shift(fn, rhs) and (fn.vars[tgt].get("sz") or 8) <= 4 and "pc" not in fn.vars[tgt]:
+                    narrow_vars[tgt] = el.line
+        for el in fn.all_elements():
+            for sub in ir.walk(fn, el.e):
+                if not (sub[0] == "b" and sub[1] == "&"):
+                    continue
+                for m, o in ((sub[2], sub[3]), (sub[3], sub[2])):
+                    m0 = fn.resolve(m)
+                    mv = m0 if isinstance(m0, list) and m0 and m0[0] == "v" else None
+                    is_mask = _int_shift(fn, m) or (mv is not None and mv[1] in narrow_vars)
+                    if not is_mask:
+                        continue
+                    ob = ir.base_var(fn, o)
+                    if ob is None or not DIGIT_TYPES.search(fn.vars[ob].get("t") or ""):
+                        continue
+                    n += 1
+                    chk.fail("SHIFT-WIDEN", fn, fn.fmt(m)[:24], "the bit of the digit `%s` is selected with `%s`, a mask computed in 32 bits: bits 31..63 of the digit are never seen (or the shift is undefined), so digits of 2^31 and more are handled wrongly" % (
+                        fn.fmt(o)[:24], fn.fmt(m)[:30]), line=el.line)
     return n
+
+
+def _int_shift(fn, e):
+    """`C << i` with C a plain int / unsigned constant and i not a constant below 31, no explicit cast around the constant"""
+    r0 = fn.resolve(e)
+    if not (isinstance(r0, list) and r0 and r0[0] == "b" and r0[1] == "<<"):
+        return False
+    l = r0[2]
+    if not (isinstance(l, list) and l[0] == "i" and (len(l) < 3 or re.match(r"^\d+[uU]?$", str(l[2])))):
+        return False
+    amt = ir.peel(fn, r0[3])
+    if isinstance(amt, list) and amt[0] == "i" and isinstance(amt[1], int) and amt[1] < 31:
+        return False
+    return True
 
 
 # ---------------------------------------------------------------------- REALLOC-KEEP
